@@ -10,14 +10,26 @@ Abstract two-node model (Model/HsRace.lean) with an adversarial scheduler: start
 either side, delivery of ANY in-flight message ANY number of times in ANY order, loss, connection-manager
 swap and tunnel deletion at any time — all schedules, unbounded (induction over the step list).
 
-Proved: the two SAFETY parts. The LIVENESS part is left open (C31_partial):
+Proved: the two SAFETY parts, for all schedules INCLUDING connection-manager traffic checks (`check`: the
+makeTrafficDecision model of C30, Model/ConnMgr.lean, applied to one tunnel with scheduler-chosen in/out flags),
+and BOUNDED PROGRESS of those checks: they never add a tunnel, a tunnel that sees no inbound traffic is marked
+at one check and deleted at the next, inbound traffic clears the mark. The LIVENESS part stays open (C31_partial):
 
   quiescent_single (NOT proved): from any reachable state, if no further message is lost and the
   connection-manager ticks continue, after a bounded number of ticks both sides hold exactly one tunnel
-  `t` / `t.mirror`.   Missing: a model of the traffic-driven liveness decisions (in/out flags,
-  pendingDeletion, test packets — C30) and a termination measure over them.
+  `t` / `t.mirror`.
+  As written it is FALSE on this model for an idle network: after a simultaneous initiation without any data
+  traffic each side deletes its non-primary tunnel and keeps its own primary — X the tunnel it initiated, Y the
+  tunnel it initiated — two single tunnels that are NOT mirrors, stable under every further idle check
+  (`idle_mismatch_is_stable`). Convergence needs traffic: with traffic on the primaries the side allowed to swap
+  follows the peer's primary and the other tunnel dies on both sides within two checks
+  (`race_converges_with_traffic`, one schedule); in the code the idle mismatch is resolved later by recv_error once
+  traffic starts. (The scheduler of this model chooses the traffic flags freely; in the code hostinfo.out starts true, so
+  the first check of every tunnel sends a test packet — an idle schedule of exactly this shape needs that exchange
+  to be lost.) Missing for a proof: a model of which tunnel carries traffic (in/out flags derived from the
+  primaries, test packets and their replies, recv_error) and a termination measure over it.
 -/
-import Nebula.Lemmas.HsRaceSwap
+import Nebula.Lemmas.HsRaceLive
 
 namespace Nebula.Props.C31
 open Nebula.HsRace Nebula.Lemmas.HsRace
@@ -67,6 +79,30 @@ theorem swap_decision_antisymmetric (a b : Side) (hne : a.addr ≠ b.addr) :
     ¬ (shouldSwap a b = true ∧ shouldSwap b a = true) := by
   simp only [shouldSwap, decide_eq_true_eq]; omega
 
+/-- bounded progress 1: a traffic check never adds a tunnel (and leaves the other side alone) -/
+theorem check_never_adds (s : St) (onX : Bool) (j : Nat) (inT outT : Bool) :
+    ((s.stepAll (.check onX j inT outT)).get onX).tunnels.length ≤ (s.get onX).tunnels.length ∧
+    (s.stepAll (.check onX j inT outT)).get (!onX) = s.get (!onX) := by
+  cases onX <;> simp only [St.stepAll, St.get, St.set, Bool.not_true, Bool.not_false, if_true, if_false, Bool.false_eq_true]
+  · exact ⟨(check_shrink s.y s.x j inT outT).2.2.2.2.2, trivial⟩
+  · exact ⟨(check_shrink s.x s.y j inT outT).2.2.2.2.2, trivial⟩
+
+/-- bounded progress 2: a tunnel without inbound traffic — non-primary, or primary but sending (the test packet
+got no answer) — is gone after two checks: the first only marks it, the second deletes it. -/
+theorem dead_tunnel_deleted_in_two_checks (me peer peer' : Side) (j : Nat) (t : Tun) (o1 o2 : Bool)
+    (ht : me.tunnels[j]? = some t) (hp : me.pdl.contains t = false) (hj : j ≠ 0 ∨ o1 = true) :
+    ((me.check peer j false o1).check peer' j false o2).tunnels = me.tunnels.eraseIdx j ∧
+    t ∈ ((me.check peer j false o1).check peer' j false o2).removed := by
+  have h1 := check_marks me peer j t o1 ht hp hj
+  have ht' : (me.check peer j false o1).tunnels[j]? = some t := by rw [h1.1]; exact ht
+  have h2 := check_deletes_marked (me.check peer j false o1) peer' j t o2 ht' h1.2
+  rw [h1.1] at h2; exact h2
+
+/-- bounded progress 3: inbound traffic keeps a tunnel (possibly promoting it) and clears its mark -/
+theorem live_tunnel_kept (me peer : Side) (j : Nat) (t : Tun) (outT : Bool) (ht : me.tunnels[j]? = some t) :
+    (me.check peer j true outT).tunnels.length = me.tunnels.length ∧
+    (me.check peer j true outT).pdl.contains t = false := check_alive_keeps me peer j t outT ht
+
 -- non-vacuity: the simultaneous-initiation race — both start, both first messages delivered, both replies
 -- delivered: each side holds two tunnels, each initiator tunnel mirrored on the other side, and the
 -- primaries DIFFER (X's primary is the tunnel it initiated, Y's the one it initiated): exactly the
@@ -81,5 +117,31 @@ example : ((St.init 1 2).run (race ++ [.swap true 1, .swap false 1])).x.swaps = 
 -- after X's swap both primaries are the two ends of one tunnel
 example : (((St.init 1 2).run (race ++ [.swap true 1])).x.tunnels.head?.map Tun.mirror) =
           ((St.init 1 2).run (race ++ [.swap true 1])).y.tunnels.head? := by decide
+
+-- idle network after the race: both sides check their tunnels twice with no traffic at all; each keeps only its own
+-- primary, the two survivors are not mirrors, and every further idle check changes nothing
+def idle : List Step :=
+  [.check true 1 false false, .check true 1 false false, .check false 1 false false, .check false 1 false false,
+   .check true 0 false false, .check false 0 false false]
+
+theorem idle_mismatch_is_stable :
+    let s := (St.init 1 2).run (race ++ idle)
+    s.x.tunnels.length = 1 ∧ s.y.tunnels.length = 1 ∧
+    s.x.tunnels.head?.map Tun.mirror ≠ s.y.tunnels.head? ∧
+    (s.stepAll (.check true 0 false false)).x.tunnels = s.x.tunnels ∧
+    (s.stepAll (.check false 0 false false)).y.tunnels = s.y.tunnels := by decide
+
+-- with traffic on the primaries: X's non-primary tunnel (the one Y initiated) sees Y's traffic, X (smaller address)
+-- swaps to it; the other tunnel then sees no inbound traffic on either side and is deleted within two checks:
+-- one tunnel each, mirrors of each other
+def busy : List Step :=
+  [.check true 1 true false,                                   -- X: inbound on the non-primary -> swapPrimary
+   .check true 1 false false, .check true 1 false false,       -- X: old primary, no inbound any more -> marked, deleted
+   .check false 1 false false, .check false 1 false false]     -- Y: its non-primary never sees traffic -> marked, deleted
+
+theorem race_converges_with_traffic :
+    let s := (St.init 1 2).run (race ++ busy)
+    s.x.tunnels.length = 1 ∧ s.y.tunnels.length = 1 ∧ s.x.tunnels.head?.map Tun.mirror = s.y.tunnels.head? ∧
+    s.x.swaps = 1 ∧ s.y.swaps = 0 := by decide
 
 end Nebula.Props.C31
